@@ -33,6 +33,7 @@ def main():
     ops, outs, failures = [], [], []
     hist, errs = {}, {}
     nontrivial = set()
+    skip = []
     t0 = time.time()
 
     def run_line(line):
@@ -49,6 +50,8 @@ def main():
                 fail["op_index"] = len(ops) - 1
                 fail["op"] = line
                 failures.append(fail)
+        if hasattr(mod, "skip_compare") and mod.skip_compare(ctx, line, res):
+            skip.append(len(ops) - 1)
         if hasattr(mod, "nontrivial"):
             k = mod.nontrivial(ctx, line, res)
             if k is not None:
@@ -84,7 +87,7 @@ def main():
     report = {
         "prop": prop, "seed": seed, "ops": len(ops), "failures": failures[:200],
         "n_failures": len(failures), "op_histogram": hist, "error_kinds": errs,
-        "distinct_nontrivial": len(nontrivial),
+        "distinct_nontrivial": len(nontrivial), "skip_compare": skip,
         "samples": ops[:3] + ops[len(ops) // 2: len(ops) // 2 + 2],
         "oracle_checks": getattr(ctx, "oracle_checks", 0) if ctx else 0,
         "extra": getattr(ctx, "extra", {}) if ctx else {},
